@@ -67,6 +67,8 @@ REVERTS = [
      "        raw_bytes = decompress_data(raw_bytes, uncompressed_page_size, codec)\n"),
     ('revert-F17-index-copies-its-buffer', ['C01', 'C06'], 'fastparquet/dataframe.py',
      "                index = Index(d, dtype=dtype, copy=False)\n", "                index = Index(d)\n"),
+    ('revert-F18-levels-always-read-as-RLE', ['C03'], 'fastparquet/core.py',
+     "                    io_obj, daph.definition_level_encoding,\n", "                    io_obj, parquet_thrift.Encoding.RLE,\n"),
 ]
 
 # functions whose twins are run per property (module, qualname)
